@@ -24,11 +24,15 @@ HEADER = 'Date,Open,High,Low,Close,Adj Close,Volume'
 US = dt.timedelta(microseconds=1)
 
 
-def fmt(v):
-    return '' if v is None else repr(float(v))
+def fmt(v, as_int=False):
+    if v is None:
+        return ''
+    if as_int and float(v) == int(v):
+        return str(int(v))
+    return repr(float(v))
 
 
-def write_csv(path, rows, order, with_adj=True):
+def write_csv(path, rows, order, with_adj=True, int_opens=False):
     """rows: list of dict(date, open, close, adj). order: permutation of row indexes."""
     with open(path, 'w') as f:
         f.write(HEADER if with_adj else HEADER.replace(',Adj Close', ''))
@@ -37,7 +41,7 @@ def write_csv(path, rows, order, with_adj=True):
             r = rows[i]
             hi = max([x for x in (r['open'], r['close']) if x is not None] or [1.0]) + 1.0
             lo = max(0.001, min([x for x in (r['open'], r['close']) if x is not None] or [1.0]) - 0.5)
-            cells = [r['date'], fmt(r['open']), fmt(hi), fmt(lo), fmt(r['close'])]
+            cells = [r['date'], fmt(r['open'], int_opens), fmt(hi), fmt(lo), fmt(r['close'])]
             if with_adj:
                 cells.append(fmt(r['adj']))
             cells.append(str(1000 + i))
@@ -164,20 +168,37 @@ class Dataset(object):
             nsym = rng.choice([1, 1, 2, 3])
             spec = {'adjust': rng.random() < 0.6, 'files': {}}
             base = dt.date(1995, 1, 1) + dt.timedelta(days=rng.randint(0, 12700))
+            twin_calendar = nsym >= 2 and rng.random() < 0.3
+            int_opens = rng.random() < 0.2
             for s in range(nsym):
                 sym = 'S%d' % s
                 start = base + dt.timedelta(days=rng.choice([0, 0, 3, 17, 90]))
                 rows = gen_rows(rng, used, start=start)
+                if twin_calendar and s > 0:
+                    # same first date, last date and row count as S0, but other days in between
+                    ref = spec['files']['S0']['rows']
+                    if len(ref) >= 3:
+                        d0, d1 = dt.date.fromisoformat(ref[0]['date']), dt.date.fromisoformat(ref[-1]['date'])
+                        inner = [d0 + dt.timedelta(days=k) for k in range(1, (d1 - d0).days)]
+                        if len(inner) >= len(ref) - 2:
+                            days = [d0] + sorted(rng.sample(inner, len(ref) - 2)) + [d1]
+                            rows = gen_rows(rng, used, n=len(ref), start=d0)
+                            for r, d in zip(rows, days):
+                                r['date'] = d.isoformat()
+                if int_opens:
+                    for r in rows:
+                        if r['open'] is not None:
+                            r['open'] = float(int(r['open']) + 1)      # whole-number opens (written without '.0')
                 order = list(range(len(rows)))
                 if rng.random() < 0.7:
                     rng.shuffle(order)
-                spec['files'][sym] = {'rows': rows, 'order': order}
+                spec['files'][sym] = {'rows': rows, 'order': order, 'int_opens': int_opens}
         self.spec = spec
         self.adjust = spec['adjust']
         for sym, f in spec['files'].items():
-            write_csv(os.path.join(self.dir, sym + '.csv'), f['rows'], f['order'])
+            write_csv(os.path.join(self.dir, sym + '.csv'), f['rows'], f['order'], int_opens=f.get('int_opens', False))
             rev = list(reversed(sorted(range(len(f['rows'])), key=lambda i: f['rows'][i]['date'])))
-            write_csv(os.path.join(self.dir2, sym + '.csv'), f['rows'], rev)
+            write_csv(os.path.join(self.dir2, sym + '.csv'), f['rows'], rev, int_opens=f.get('int_opens', False))
         self.ev = {'EQ:' + sym: events(f['rows'], self.adjust) for sym, f in spec['files'].items()}
 
     def close(self):
@@ -258,7 +279,8 @@ def check_answer(ds, asset, t, got, what, acc, prop='C06'):
 def run_dataset(ds, acc, rng, n_extra=0):
     from qstrader.data.daily_bar_csv import CSVDailyBarDataSource
     from qstrader.data.backtest_data_handler import BacktestDataHandler
-    src = CSVDailyBarDataSource(ds.dir, None, adjust_prices=ds.adjust)
+    with core.loud(len(ds.ev) % 2 == 0 and rng.random() < 0.3):
+        src = CSVDailyBarDataSource(ds.dir, None, adjust_prices=ds.adjust)
     src2 = CSVDailyBarDataSource(ds.dir2, None, adjust_prices=ds.adjust)
     handler = BacktestDataHandler(None, data_sources=[src])
     acc.count('C06:datasets')
